@@ -94,6 +94,10 @@ MUTANTS = [
      "        self._next_scheduled_for_alias[('', scheduled_query.alias)] = scheduled_query"),
     ("c09-conflict-test-compares-spelling", "C09", "_cache.py",
      "                and cast(DNSPointer, record).alias_key == alias_key", "                and cast(DNSPointer, record).alias == alias"),
+    ("c19-dollar-anchor", "C19", "const.py",
+     "_HAS_ONLY_A_TO_Z_NUM_HYPHEN = re.compile(r'^[A-Za-z0-9\\-]+\\Z')", "_HAS_ONLY_A_TO_Z_NUM_HYPHEN = re.compile(r'^[A-Za-z0-9\\-]+$')"),
+    ("c19-surrogate-not-contained", "C19", "_utils/name.py",
+     "        except UnicodeEncodeError as ex:", "        except ZeroDivisionError as ex:"),
     ("c10-kept-query-keeps-old-ttl", "C10", "_services/browser.py",
      "                current.ttl = int(pointer.ttl) if isinstance(pointer.ttl, float) else pointer.ttl\n"
      "                current.expire_time_millis = pointer.get_expiration_time(100)\n", ""),
